@@ -413,6 +413,12 @@ pub fn compile(path: &Path, src: &str) -> Result<Compilation, CompilationError> 
     if diagnostics.has_errors() {
         return Err(CompilationError::Compile { diagnostics });
     }
+    // as `link` does: the generated entry point calls Main's `main`
+    if !core.toplevels.iter().any(|f| f.name == "main") {
+        return Err(compile_error(
+            "Main package missing main function".to_string(),
+        ));
+    }
     let (mono, monoenv, unbounded) = mono::mono_with_diagnostics(genv.clone(), core.clone());
     if !unbounded.is_empty() {
         return Err(compile_error(format!(
